@@ -318,9 +318,8 @@ def tpRenderTABLE(self, id, root_url, url, state, substate, diff, data,
                     raise ValidationError(unauth)
 
         if 'sort' in args:
-            # Faster/less mem in-place sort
-            if isinstance(items, tuple):
-                items = list(items)
+            # Sort a copy: the list may be the object's own
+            items = list(items)
             sort = args['sort']
             size = range(len(items))
             for i in size:
